@@ -61,7 +61,7 @@ class _LineCounter(object):
 class C09(CheckBase):
     id = 'C09'
     title = 'Library calls are pure'
-    quick_runs = 420
+    quick_runs = 1000
     thorough_runs = 30000
     quick_budget_s = 75
     thorough_budget_s = 1500
@@ -70,7 +70,8 @@ class C09(CheckBase):
     det_sample_thorough = 96
     required_probes = ['preempt_inside_constants_py', 'cancel_fired_inside_constants_py',
                        'shared_argument_in_flight_on_two_threads', 'repeat_on_other_thread',
-                       'two_transformation_ops_in_flight', 'covariance_with_sd_op']
+                       'two_transformation_ops_in_flight', 'covariance_with_sd_op', 'near_repeat_op',
+                       'same_kind_in_flight_on_two_threads']
     components = {
         'real': ['geodepy.angles', 'geodepy.constants', 'geodepy.convert', 'geodepy.geodesy', 'geodepy.statistics',
                  'geodepy.survey', 'geodepy.transform', 'geodepy.coord', 'geodepy.ntv2reader (under transform.ntv2_2d)',
@@ -109,6 +110,12 @@ class C09(CheckBase):
         ctx.dated = [n for n in ctx.catalogue if type(getattr(c, n).ref_epoch) is datetime.date]
         ctx.with_sd = [n for n in ctx.catalogue if getattr(c, n).tf_sd is not None]
         ops_mod.DATED_SD[:] = [n for n in ctx.dated if n in ctx.with_sd]
+        ctx.label_groups = {}
+        for n in ctx.catalogue:
+            t = getattr(c, n)
+            same = [m for m in ctx.catalogue if m != n and (getattr(c, m).from_datum, getattr(c, m).to_datum) == (t.from_datum, t.to_datum)]
+            if same:
+                ctx.label_groups[n] = same
         # canary ops (harness-side toys)
         from checks import c09_canary
         self.canary_mod = c09_canary
@@ -118,7 +125,9 @@ class C09(CheckBase):
         spec = {'subgrids': [
             {'name': 'PARENT', 'parent': 'NONE', 's_lat': -38 * 3600.0, 'e_long': -146 * 3600.0,
              'lat_inc': 300.0, 'long_inc': 300.0, 'nrow': 25, 'ncol': 25},
-            {'name': 'CHILD', 'parent': 'PARENT', 's_lat': -37.5 * 3600.0, 'e_long': -145.5 * 3600.0,
+            # disjoint on purpose: ntv2reader iterates a set() of names of overlapping sub-grids, whose
+            # order (hence the line-event count, hence the run digest) would depend on PYTHONHASHSEED
+            {'name': 'OTHER', 'parent': 'NONE', 's_lat': -37.5 * 3600.0, 'e_long': -148.5 * 3600.0,
              'lat_inc': 60.0, 'long_inc': 60.0, 'nrow': 31, 'ncol': 31}]}
         data, _ = ntv2_writer.build(spec, lambda k, r, cc: (0.25 * r - 0.125 * cc + k, 0.5 * cc + 0.0625 * r * cc, 0.01, 0.02))
         self.fs.put('/sim/std.gsb', data)
@@ -254,14 +263,39 @@ class C09(CheckBase):
         boost = set(rng.sample(fams, rng.randrange(1, 4)))
         w = [wk * (4 if any(k.startswith(b) or (b == 'Angle' and 'Angle.' in k) for b in boost) else 1)
              for k, wk in zip(self.kinds, self.kind_w)]
+        # focused runs: the whole history is drawn from 1..3 op kinds, so that calls of the
+        # same function (and of functions sharing helpers) overlap in time and in history
+        focus = None
+        if rng.random() < 0.4:
+            focus = rng.choices(self.kinds, w, k=rng.choice([1, 1, 2, 3]))
         ops = []
         shared = []
         for j in range(nops):
-            if ops and rng.random() < 0.3:
+            k = rng.random()
+            if ops and k < 0.25:
                 src = rng.choice(ops)
                 o = {'id': j, 'kind': src['kind'], 'args': src['args'], 'thread': rng.randrange(T), 'repeat_of': src['id']}
+            elif ops and k < 0.45:
+                # near-repeat: same call, one argument replaced by a close relative
+                src = rng.choice(ops)
+                args = list(src['args'])
+                idx = list(range(len(args)))
+                # structured arguments first (that is where coarse memo keys live), plain numbers last
+                idx.sort(key=lambda a: (0 if isinstance(args[a], dict) else 1) + rng.random() * 1.4)
+                done = False
+                for a in idx:
+                    v = ops_mod.near_variant(rng, args[a], self.ctx)
+                    if v is not None:
+                        args[a] = v
+                        done = True
+                        break
+                o = {'id': j, 'kind': src['kind'], 'args': args, 'thread': rng.randrange(T)}
+                if done:
+                    o['near_repeat_of'] = src['id']
+                else:
+                    o['repeat_of'] = src['id']
             else:
-                kind = rng.choices(self.kinds, w)[0]
+                kind = rng.choice(focus) if focus else rng.choices(self.kinds, w)[0]
                 args = ops_mod.OPS[kind][1](rng, self.ctx)
                 o = {'id': j, 'kind': kind, 'args': args, 'thread': rng.randrange(T)}
             ops.append(o)
@@ -299,7 +333,8 @@ class C09(CheckBase):
         if tier == 'thorough' and T > 1 and rng.random() < 0.25:
             opcode = '%08x' % rng.getrandbits(32)
         return {'property': 'C09', 'threads': T, 'ops': ops, 'shared': shared, 'faults': faults,
-                'sched': {'mode': 'rng', 'seed': rng.getrandbits(64)}, 'switches': [], 'opcode_salt': opcode}
+                'sched': {'mode': 'rng', 'seed': rng.getrandbits(64)}, 'switches': [], 'opcode_salt': opcode,
+                'scribble': rng.random() < 0.35, 'focus': focus}
 
     @staticmethod
     def _same_shape(lit, v):
@@ -329,7 +364,10 @@ class C09(CheckBase):
     def _ref_child(self, op):
         env = self.env
         env.reset_shared(self._cur_shared)
-        args = [ops_mod.materialise(a, env) for a in op['args']]
+        try:
+            args = [ops_mod.materialise(a, env) for a in op['args']]
+        except Exception as e:      # the literal is not a valid caller object (e.g. invalid HP value)
+            return {'status': 'unbuildable', 'lines': 0, 'exc': type(e).__name__}
         lc = _LineCounter(self.is_sut_file, REF_LINE_BUDGET)
         try:
             sys.settrace(lc.g)
@@ -413,7 +451,7 @@ class C09(CheckBase):
         per_thread = [[o for o in ops if o['thread'] % T == t] for t in range(T)]
         log.add('cfg', T, len(ops), decider.describe(), sorted(fault_map.items()), stalls)
         inflight_pairs = set()
-        probe = {'shared_overlap': 0, 'two_trans': 0}
+        probe = {'shared_overlap': 0, 'two_trans': 0, 'same_kind': 0}
         cur_kind = [None] * T
         cur_shared = [()] * T
 
@@ -426,6 +464,8 @@ class C09(CheckBase):
                     probe['shared_overlap'] += 1
                 if ('ransform' in ka) and ('ransform' in kb):
                     probe['two_trans'] += 1
+                if ka == kb:
+                    probe['same_kind'] += 1
 
         switch_seq = []
         sched.on_switch = on_switch
@@ -464,6 +504,7 @@ class C09(CheckBase):
             target = ops_mod.OPS[kind][0]
             fn = ops_mod.resolve(target, env)
             status = 'ok'
+            res = None
             sched.begin_op(tid, op['id'])
             try:
                 try:
@@ -512,6 +553,13 @@ class C09(CheckBase):
                         bump('o3_compared')
                 else:
                     bump('ops_dropped_reference_over_budget')
+                if trace.get('scribble') and out[0] == 'ok':
+                    # the caller owns what it was handed back: overwrite every array / list / dict in the
+                    # result.  A function that hands out a cached or module-level object now has altered
+                    # hidden state, which a later call (or the snapshots) exposes.
+                    n = self._scribble(res, args)
+                    if n:
+                        bump('results_scribbled', n)
 
         def body(tid):
             for op in per_thread[tid]:
@@ -560,6 +608,12 @@ class C09(CheckBase):
             bump('probe:shared_argument_in_flight_on_two_threads')
         if probe['two_trans']:
             bump('probe:two_transformation_ops_in_flight')
+        if probe['same_kind']:
+            bump('probe:same_kind_in_flight_on_two_threads')
+        if any('near_repeat_of' in o for o in ops):
+            bump('probe:near_repeat_op')
+        if trace.get('focus'):
+            bump('focused_runs')
         if any('repeat_of' in o and op_by_id.get(o['repeat_of'], o)['thread'] % T != o['thread'] % T for o in ops):
             bump('probe:repeat_on_other_thread')
         if any(o['kind'] in ('transform.conform7', 'transform.conform14') and len(o['args']) > (4 if o['kind'].endswith('7') else 5)
@@ -587,6 +641,34 @@ class C09(CheckBase):
         log.add('end', len(viol), sched.steps, sched.nswitch)
         return {'digest': log.digest(), 'violations': viol[:40], 'stats': stats, 'sets': sets, 'sig': sig,
                 'nontrivial': nontrivial, 'sample': sample, 'recorded': recorded}
+
+    def _scribble(self, res, args, depth=0):
+        np = self.env.np
+        if depth > 4 or res is None:
+            return 0
+        if id(res) in self.cat or any(res is a for a in args):
+            return 0
+        n = 0
+        if isinstance(res, np.ndarray):
+            if res.dtype.kind in 'fiu' and res.flags.writeable and not any(
+                    isinstance(a, np.ndarray) and np.may_share_memory(res, a) for a in args):
+                res[...] = 7
+                return 1
+            return 0
+        if isinstance(res, list):
+            for x in res:
+                n += self._scribble(x, args, depth + 1)
+            res.append('scribbled-by-caller')
+            return n + 1
+        if isinstance(res, dict):
+            for x in list(res.values()):
+                n += self._scribble(x, args, depth + 1)
+            res['scribbled-by-caller'] = True
+            return n + 1
+        if isinstance(res, tuple):
+            for x in res:
+                n += self._scribble(x, args, depth + 1)
+        return n
 
     @staticmethod
     def _only_new_private(b, a):
